@@ -12,7 +12,7 @@
    the step from the stripped circuit to the flop circuit itself (`C09_stripped_is_flop_run_full`; stages S1, S2a proved:
    `C09_flop_run_is_run`, `C09_flop_run_unique`, `C09_remove_nodes_extend`). *)
 From stdpp Require Import strings gmap sets fin_sets.
-From CG Require Import Base.Oracle Model.Unroll Model.Lint Proofs.UnrollProofs Proofs.UnrollLink Proofs.UnrollTotal Proofs.UnrollModelTotal Proofs.FlopSemantics Proofs.RemoveNodes.
+From CG Require Import Base.Oracle Model.Unroll Model.Lint Proofs.UnrollProofs Proofs.UnrollLink Proofs.UnrollTotal Proofs.UnrollModelTotal Proofs.FlopSemantics Proofs.RemoveNodes Proofs.FlopLink.
 Open Scope string_scope.
 
 (* the node the map gives for io o at step t carries the value obtained by running c for t+1 steps, the initial state
@@ -203,14 +203,20 @@ Theorem C09_remove_nodes_extend : ∀ h ns x,
 Proof. intros h ns x Hd. by apply remove_consistent_extend. Qed.
 Print Assumptions C09_remove_nodes_extend.
 
-(* NOT proved (S2b/S3, decided per case by Run_C09.holds which simulates the flop circuit itself): the stripped circuit's run is
-   the flop circuit's run read through the pin renaming, hence io_map values = cycle-accurate simulation; output marks and
-   initial-value types.  Plan and the needed guards: docs/C09-handover.md. *)
-Definition C09_stripped_is_flop_run_full : Prop := ∀ C d q ign ru CS sio st ins t n,
-  seq_stripped C d q ign ru = Ok (CS, sio) → lint_clean C → lint_clean CS → closed (c_g C) → acyclic (c_g C) →
+(* S2b: the stripped circuit's run IS the flop circuit's cycle-accurate run, read through the pin renaming ρ (<inst>.<pin> -> <inst>_<pin>),
+   at every node of the flop circuit that survives the stripping; st / ins are pulled back along ρ.  Guards (Model/Unroll.v):
+   `flop_names_ok` (dot-free instance / pin names, unambiguous flattened names that are not node names, every pin-typed node is a
+   registered pin), `flop_wiring_ok` (only Q pins are read: bb_input pins have no fan-out, other output pins are unloaded), D and Q
+   not ignored.  (The statement left open at hand-over lacked exactly these guards.) *)
+Theorem C09_stripped_is_flop_run : ∀ C d q ign ru CS sio st ins t n,
+  seq_stripped C d q ign ru = Ok (CS, sio) → lint_clean C → closed (c_g C) → acyclic (c_g C) → closed (c_g CS) → acyclic (c_g CS) →
+  flop_names_ok C → flop_wiring_ok C q → d ∉ ign → q ∉ ign → (∀ kv, kv ∈ sio → kv.1 ∈ dom (c_g CS)) →
   let ρ := pin_rho (kept_pins (c_g C) ign) in
   n ∈ dom (c_g C) → ρ n ∈ dom (c_g CS) →
   flop_run C d q t (st ∘ ρ) (λ t, ins t ∘ ρ) n = run (c_g CS) sio t st ins (ρ n).
+Proof. exact stripped_is_flop_run. Qed.
+Print Assumptions C09_stripped_is_flop_run.
+
 (* --- non-vacuity: a toggle/accumulate machine  o = s xor a,  state s <- o, two steps --- *)
 Definition ex_c : circuit :=
   {[ "a" := mk_node Input false ∅ ]} ∪ {[ "s" := mk_node Input false ∅ ]} ∪ {[ "o" := mk_node Xor true {[ "a"; "s" ]} ]}.
